@@ -33,7 +33,7 @@ import asyncio
 import functools
 import random
 
-from ..collect import sig_of
+from ..collect import guarded, sig_of
 from ..loops import BusyLoop, Deadlock, run
 from ..sched import Actor, Harness, run_actors
 
@@ -782,11 +782,11 @@ def shards(tier: str, seed: int) -> list[dict]:
 def run_shard(desc: dict, col) -> None:  # noqa: ANN001
     for i, case in enumerate(all_cases(desc["tier"], desc["seed"])):
         if i % desc["of"] == desc["shard"]:
-            judge(case, col)
+            guarded(col, case, judge, case, col)
 
 
 def replay(case: dict, col) -> None:  # noqa: ANN001
-    judge(case, col)
+    guarded(col, case, judge, case, col)
 
 
 def finish(col, tier: str) -> None:  # noqa: ANN001
